@@ -29,6 +29,16 @@ Definition new_store (c : option (@smap name (rentry V))) (names : list name) (a
     end
   else None.
 
+(* the cache writes of one start, successful or not: NewStore returns the error of
+   initializeActive (store.go:242-244) BEFORE the `wantFlush` write (245-249) and before anything
+   else touches the cache, so a start that fails performs no cache write at all *)
+Definition start_fx (c : option (@smap name (rentry V))) (names : list name) (allow_lookup : bool) (age_ns : Z)
+                    (ans : name -> option (N * V)) (now_s : Z) : list (effect V) :=
+  match new_store c names allow_lookup age_ns ans now_s with
+  | Some (_, fx, _) => fx
+  | None => []
+  end.
+
 (* ---- events after construction *)
 Inductive ev :=
 | ELookup (n : name) (ans : option (N * V)) (now_s : Z)   (* Store.LookupSecret; ans = the service's answer to Get *)
